@@ -62,7 +62,7 @@ class Case:
     # ---- real object ----------------------------------------------------------------------
     def build(self) -> SolutionTracks:
         sp = self.spec
-        g = nx.DiGraph()
+        g = nx.DiGraph(**(sp.get("graph_attrs") or {}))
         nspat = self.ndim - 1
         tdt = sp.get("time_dtype")
         for n in sp["nodes"]:
@@ -88,6 +88,13 @@ class Case:
         seg = None
         if self.cfg == "seg":
             seg = np.array(sp["seg"], dtype=np.dtype(sp.get("seg_dtype", "int64"))).reshape(self.shape)
+            if sp.get("seg_layout") == "crop":
+                big = np.zeros(tuple([self.shape[0]] + [d + 3 for d in self.shape[1:]]), dtype=seg.dtype)
+                window = tuple([slice(None)] + [slice(1, 1 + d) for d in self.shape[1:]])
+                big[window] = seg
+                seg = big[window]            # a view into a larger array
+            elif sp.get("seg_layout") == "F":
+                seg = np.asfortranarray(seg)
         scale_obj: Any = self.scale
         if self.scale is not None and sp.get("scale_type") == "tuple":
             scale_obj = tuple(self.scale)
